@@ -151,7 +151,7 @@ def run(ctx):
     cells = call_sites(P, lambda c, t: any(x in c["path"] for x in ("OnceLock", "OnceCell", "LazyLock", "LazyCell", "lazy_static", "thread::local", "LocalKey", "AtomicU", "AtomicI", "Mutex", "RwLock")))
     ctx.ob("E7.statics", "cells", not cells, "once-cells / thread-local keys / atomics / locks used: %s" % [(f.key, t["callee"]["path"]) for f, bb, t in cells][:4], where=where(cells[0][0], cells[0][1]) if cells else None)
     calls = call_sites(P, lambda c, t: c.get("key") == "helpers::get_crypto_rng")
-    ctx.floor("E7.rng", "get_crypto_rng call sites", len(calls), 12)
+    ctx.floor("E7.rng", "get_crypto_rng call sites (detector is live; every ephemeral value is traced to one below)", len(calls), 5)
     # 2. origin analysis
     def ret_comp(i):
         def f(ev):
@@ -191,8 +191,11 @@ def run(ctx):
     check_origin(ctx, P, "BlsSignatureProof::generate_timestamp_proof", "x (u = H(m)*x)", lambda ev: next((t.a[1][1] for t in subterms(ev.ret) if t.op == "call" and B.cname(t) == "Mul::mul" and any(x.op == "call" and B.cname(x) == "HashToPoint::hash_to_point" for x in subterms(t.a[1][0]))), None), need="fresh")
     # ElGamal
     def blinder(ev):
-        for b in ev.ret_at:
-            for t in subterms(ev.ret_at[b]):
+        # seal_scalar may build the pair itself or hand (pk, H*m, blinder, rng) to seal_point: look through that one sibling
+        rets = [ev.ret_at[b] for b in ev.ret_at]
+        rets += [inline(P, r, 1, only=lambda g: g.key in ("BlsElGamal::seal_point", "BlsElGamal::seal_scalar") and g is not ev.fn) for r in list(rets)]
+        for r in rets:
+            for t in subterms(r):
                 if t.op == "call" and B.cname(t) == "Mul::mul" and B.peel(t.a[1][0]).op == "call" and B.cname(B.peel(t.a[1][0])) == "Group::generator":
                     return t.a[1][1]
         return None
